@@ -121,7 +121,7 @@ def targeted_scenarios(kind, method, idx):
     if kind in TTLK:
         others += ["clean"]
     if kind == 7:
-        others += ["update_ttl 1", "clear"]
+        others += ["update_ttl 1", "update_ttl 100", "clear"]
     if kind == 8:
         others += ["clear"]
     out = []
@@ -129,17 +129,18 @@ def targeted_scenarios(kind, method, idx):
     n = 0
     for cap in (2, 1, 3):
         for oth in others:
-            for two in (False, True):
+            for two in (None, "find_range 0 2 1 2", "insert 0 1 {v} 3"):
                 n += 1
                 v = 100 + 10 * n
                 def fmt(t, a, b):
                     t = t.format(v=1 if kind == 9 else a, w=1 if kind == 9 else b)
                     return t
-                progs = [[fmt(base, v, v + 1)], [fmt(oth, v + 2, v + 3)] + ([fmt("find_range 0 2 1 2", 0, 0)] if two else [])]
+                progs = [[fmt(base, v, v + 1)], [fmt(oth, v + 2, v + 3)] + ([fmt(two, v + 4, 0)] if two else [])]
                 pre = ["op %d insert %d 1 %d 3" % (now, 5 if kind == 6 else 0, 10 if kind != 9 else 1),
                        "op %d insert %d 2 %d 3" % (now, 5 if kind == 6 else 0, 20 if kind != 9 else 1)][:cap]
+                post = ["op %d find %d 1" % (now + d * MS, k) for d in (2, 50) for k in (1, 2)] if kind in TTLK else []
                 out.append(dict(id="%s-t%d-%s-%d" % (KINDS[kind], idx, method, n), kind=kind, cap=cap if kind != 3 else 6, ttl=5, tick=1, rnum=1, rk=1,
-                                now=now, universe=[1, 2, 3, 4], pre=pre, progs=progs, post=[]))
+                                now=now, universe=[1, 2, 3, 4], pre=pre, progs=progs, post=post))
     return out
 
 
@@ -153,6 +154,8 @@ def write_scenarios(scs, path):
             for t, prog in enumerate(s["progs"]):
                 for o in prog:
                     f.write("thread %d op 0 %s\n" % (t, o))
+            for p in s.get("post", []):
+                f.write("post %s\n" % p)
             f.write("end\n")
 
 
@@ -170,16 +173,21 @@ def parse_runs(text):
             parts = l.split("|")
             choices = parts[0].split()[1:]
             if len(parts) < 3:
-                res[cur].append((choices, None, l))
+                res[cur].append((choices, None, l, []))
                 continue
             ops = []
+            posts = []
             for seg in parts[1].split(";"):
                 seg = seg.strip()
                 if not seg:
                     continue
                 m = re.match(r"(\d+)\.(\d+) inv=(\d+) ret=(\d+) (.*)$", seg)
-                ops.append((int(m.group(1)), int(m.group(2)), int(m.group(3)), int(m.group(4)), m.group(5)))
-            res[cur].append((choices, ops, parts[2].strip()))
+                if m:
+                    ops.append((int(m.group(1)), int(m.group(2)), int(m.group(3)), int(m.group(4)), m.group(5)))
+                    continue
+                m = re.match(r"post\.(\d+) inv=0 ret=0 (.*)$", seg)
+                posts.append(m.group(2))
+            res[cur].append((choices, ops, parts[2].strip(), posts))
     return res, meta
 
 
@@ -267,17 +275,17 @@ def run(prop, tier, seed, res, check, targets=None):
                                                scenario=allsc.get(sid[0].split()[-1], sid), schedule=last[0], stderr=se[-2000:]))
         for sid, rl in runs.items():
             seen = set()
-            for (choices, ops, final) in rl:
+            for (choices, ops, final, posts) in rl:
                 total_runs += 1
                 if ops is None:
                     continue
-                key = (tuple((t, j, inv, ret, r) for (t, j, inv, ret, r) in ops), final)
+                key = (tuple((t, j, inv, ret, r) for (t, j, inv, ret, r) in ops), final, tuple(posts))
                 if key in seen:
                     continue
                 seen.add(key)
                 distinct += 1
                 hid = "%s#%d" % (sid, len(seen))
-                histories[hid] = (sid, choices, ops, final)
+                histories[hid] = (sid, choices, ops, final + (" | post: " + " ; ".join(posts) if posts else ""))
                 s = allsc[sid]
                 for pi, order in enumerate(linearizations(ops)):
                     cid = "%s/p%d" % (hid, pi)
@@ -290,7 +298,12 @@ def run(prop, tier, seed, res, check, targets=None):
                         t, j, inv, ret, r = ops[oi]
                         lines.append("op %d %s" % (s["now"], s["progs"][t][j]))
                         exp.append(r)
-                    lines.append("probe %d" % s["now"])
+                    last_now = s["now"]
+                    for pj, pl in enumerate(s.get("post", [])):
+                        lines.append(pl)
+                        exp.append(posts[pj] if pj < len(posts) else "?")
+                        last_now = int(pl.split()[1])
+                    lines.append("probe %d" % last_now)
                     exp.append(final_to_probe(final, s["cap"], s["kind"]))
                     lines.append("end")
                     cases.append((cid, "\n".join(lines) + "\n", exp))
